@@ -1,2 +1,1204 @@
-// Package c12 will hold the check for property C12.
+// Package c12 decides C12: a retention scan removes exactly the expired messages and nothing
+// else, on both real back ends, also while clients deliver, remove and purge; a period of zero
+// disables retention; scan and run loop stop when the context is cancelled.
+//
+// The real storage.RetentionScanner runs against the real mem and file stores.  Message dates are
+// placed at least ten minutes away from the cut-off, so the wall clock read inside DoScan cannot
+// change which messages are expired.  Streams:
+//
+//	seq     sequential scans over generated populations; store compared with the model
+//	inject  client operations executed at chosen steps of the scan (k-th visited mailbox; on the
+//	        file store also between the directory levels of VisitMailboxes) - deterministic races
+//	race    scans racing with 1-4 client goroutines; verdict from a logical clock
+//	cancel  context cancelled at every k-th visit and every k-th RemoveMessage
+//	start   Start with period 0; Start with a positive period cancelled before its first scan
+//	loop    (thorough) the run loop performs a real scan after its one-minute delay, then stops
 package c12
+
+import (
+	"context"
+	"errors"
+	"fmt"
+	"runtime"
+	"sort"
+	"strconv"
+	"sync"
+	"sync/atomic"
+	"time"
+
+	"github.com/inbucket/inbucket/v3/pkg/config"
+	"github.com/inbucket/inbucket/v3/pkg/storage"
+	"github.com/inbucket/inbucket/v3/pkg/verifhook"
+
+	"verifharness/internal/fw"
+	"verifharness/internal/sut"
+)
+
+func init() {
+	fw.Register(&fw.Prop{
+		ID:    "C12",
+		Level: "exploration",
+		Race:  true,
+		Rule: "populations of 1-40 mailboxes x 0-15 messages (dates = now - period -/+ 10min..30d, never nearer the cut-off; periods 1h..90d) " +
+			"on mem and file; streams: seq (1-3 DoScan rounds with client changes between, store == model minus expired), inject (purge/remove/deliver " +
+			"executed at the k-th visited mailbox and, on file, between VisitMailboxes directory levels), race (1-4 client goroutines deliver young/old, " +
+			"remove, purge whole mailboxes while 1-3 scans run; verdict by logical clock, then one quiet scan and exact comparison), cancel (context " +
+			"cancelled at every k-th visit / k-th RemoveMessage, RetentionSleep 20ms), start (period 0; positive period cancelled before first scan), " +
+			"loop (thorough: real run-loop scan after the one-minute delay). Non-trivial: a scan that had >=1 expired and >=1 unexpired message " +
+			"(distinct by back end, period class, size buckets, stream-specific step).",
+		Assumptions: []string{
+			"message dates are >= 10 minutes away from the cut-off, and a case finishes within 10 minutes of reading the clock, so time.Now() inside DoScan cannot change the expected result",
+			"DoScan is never called with period 0 (the documented way to disable retention is the guard in Start)",
+			"under cancellation only 'no further mailbox is visited', 'DoScan/Start/Join return' and 'no unexpired message is lost' are demanded; partial progress is not",
+			"messages delivered while a scan runs must survive if unexpired and are don't-care if expired; client operations overlapping an add on the logical clock make that message don't-care",
+			"a failing AddMessage of a racing client is counted, not judged (C09)",
+		},
+		MinObs: func(tier string) map[string]int64 {
+			m := map[string]int64{
+				"expired_removed": 500, "unexpired_kept": 500,
+				"seq_scans:mem": 20, "seq_scans:file": 20,
+				"inject_ops_during_scan": 50, "inject_level_hook_ops": 5,
+				"race_cases:mem": 10, "race_cases:file": 10, "race_client_ops_overlapping_scan": 50,
+				"race_purges_overlapping_scan": 5,
+				"cancel_points:visit":          20, "cancel_points:remove": 20, "cancel_stopped_early": 20,
+				"start_zero_returned": 2, "start_cancel_returned": 2,
+				"distinct_nontrivial": 60,
+			}
+			if tier == "thorough" {
+				m["loop_scans_observed"] = 2
+			}
+			return m
+		},
+		Run: run,
+	})
+}
+
+var backends = []string{"mem", "file"}
+
+func run(c *fw.Ctx) {
+	c.Cases("seq", c.N(240, 5000), func(i int, r *fw.Rand) { runSeq(c, i, r) })
+	c.Cases("inject", c.N(240, 4000), func(i int, r *fw.Rand) { runInject(c, i, r) })
+	c.Cases("race", c.N(240, 4000), func(i int, r *fw.Rand) { runRace(c, i, r) })
+	c.Cases("cancel", c.N(12, 200), func(i int, r *fw.Rand) { runCancel(c, i, r) })
+	c.Cases("start", c.N(16, 64), func(i int, r *fw.Rand) { runStart(c, i, r) })
+	c.Cases("loop", c.N(0, 2), func(i int, r *fw.Rand) { runLoop(c, i, r) })
+}
+
+// scanOnce runs DoScan under a watchdog.  It returns false when the case must be abandoned.
+func scanOnce(c *fw.Ctx, rs *storage.RetentionScanner, ctx context.Context, stream string) (err error, ok bool) {
+	ok, dump := c.Within(90*time.Second, func() { err = rs.DoScan(ctx) })
+	if !ok {
+		c.Hang("doscan-return:"+stream, "DoScan did not return", dump)
+		return nil, false
+	}
+	return err, true
+}
+
+func expectSimple(m *pmsg) int {
+	if m.Old {
+		return mustGone
+	}
+	return mustStay
+}
+
+func dropExpired(model map[string][]*pmsg) (removed, kept int) {
+	for n, l := range model {
+		var k []*pmsg
+		for _, m := range l {
+			if m.Old {
+				removed++
+			} else {
+				k = append(k, m)
+			}
+		}
+		kept += len(k)
+		if len(k) == 0 {
+			delete(model, n)
+		} else {
+			model[n] = k
+		}
+	}
+	return
+}
+
+// ---------------------------------------------------------------------------------------------
+// seq
+
+func runSeq(c *fw.Ctx, idx int, r *fw.Rand) {
+	backend := backends[idx%2]
+	spec := genPop(r, 1, 40, 15, false)
+	st, _, err := newStore(c, backend)
+	if err != nil {
+		panic(err)
+	}
+	now := time.Now()
+	model, err := instantiate(st, &spec, now)
+	if err != nil {
+		c.Inconclusive("population could not be stored: " + err.Error())
+		return
+	}
+	all := map[string]bool{}
+	for _, b := range spec.Boxes {
+		all[b.Name] = true
+	}
+	allNames := func() []string {
+		var n []string
+		for k := range all {
+			n = append(n, k)
+		}
+		sort.Strings(n)
+		return n
+	}
+	detail := map[string]any{"backend": backend, "period": spec.Period.String(), "population": spec}
+	pre, err := sut.Snapshot(st, allNames(), true)
+	if err != nil {
+		c.Inconclusive("store unreadable before the scan: " + err.Error())
+		return
+	}
+	if vs := judge(pre, model, func(*pmsg) int { return mustStay }, false); len(vs) > 0 {
+		c.Inconclusive("store differs from what was delivered before any scan: " + vs[0].what)
+		return
+	}
+	w := &wrapStore{Store: st}
+	rs := storage.NewRetentionScanner(config.Storage{RetentionPeriod: spec.Period, RetentionSleep: 0}, w)
+	rounds := r.Range(1, 3)
+	for round := 0; round < rounds; round++ {
+		old, young := 0, 0
+		for _, l := range model {
+			for _, m := range l {
+				if m.Old {
+					old++
+				} else {
+					young++
+				}
+			}
+		}
+		serr, ok := scanOnce(c, rs, context.Background(), "seq")
+		if !ok {
+			return
+		}
+		c.Count("seq_scans:"+backend, 1)
+		if serr != nil {
+			c.Violation("C12:scan-error:seq", fmt.Sprintf("DoScan on a quiet %s store returned %v", backend, serr), detail)
+			return
+		}
+		snap, err := sut.Snapshot(st, allNames(), true)
+		if err != nil {
+			c.Violation("C12:store-unreadable-after-scan:seq", fmt.Sprintf("%s store after DoScan: %v", backend, err), detail)
+			return
+		}
+		if vs := judge(snap, model, expectSimple, false); len(vs) > 0 {
+			_, rem := w.snapshot()
+			d := map[string]any{"round": round, "remove_calls": tail(rem, 40)}
+			for k, v := range detail {
+				d[k] = v
+			}
+			report(c, "seq", vs, d)
+			return
+		}
+		removed, kept := dropExpired(model)
+		c.Count("expired_removed", int64(removed))
+		c.Count("unexpired_kept", int64(kept))
+		if old > 0 && young > 0 {
+			c.NonTrivial(fmt.Sprintf("seq|%s|%s|boxes=%s|old=%s|young=%s|round=%d", backend, spec.PClass,
+				bucket(len(spec.Boxes)), bucket(old), bucket(young), round))
+		}
+		if round == 0 {
+			c.Sample(map[string]any{"stream": "seq", "backend": backend, "period": spec.Period.String(),
+				"mailboxes": len(spec.Boxes), "expired": old, "unexpired": young, "removed": removed})
+		}
+		if round+1 == rounds {
+			break
+		}
+		// Client activity between scans: new mail (both sides of the cut-off), explicit removals.
+		nops := r.Range(0, 12)
+		for k := 0; k < nops; k++ {
+			switch r.Weighted([]int{6, 2, 1}) {
+			case 0:
+				name := ""
+				if r.Bool() || len(spec.Boxes) == 0 {
+					name = "n" + r.Letters(r.Range(2, 6), "abcdefghijklmnopqrstuvwxyz")
+				} else {
+					name = spec.Boxes[r.Intn(len(spec.Boxes))].Name
+				}
+				all[name] = true
+				ms := genMsg(r, spec.Period)
+				ms.Seen = false
+				pm, err := addOne(st, name, ms, now, spec.Period)
+				if err != nil {
+					c.Inconclusive("AddMessage failed between scans: " + err.Error())
+					return
+				}
+				model[name] = append(model[name], pm)
+			case 1:
+				ns := names(model)
+				if len(ns) == 0 {
+					continue
+				}
+				n := ns[r.Intn(len(ns))]
+				j := r.Intn(len(model[n]))
+				if err := st.RemoveMessage(n, model[n][j].ID); err != nil {
+					c.Inconclusive("RemoveMessage failed between scans: " + err.Error())
+					return
+				}
+				model[n] = append(append([]*pmsg{}, model[n][:j]...), model[n][j+1:]...)
+				if len(model[n]) == 0 {
+					delete(model, n)
+				}
+			case 2:
+				ns := names(model)
+				if len(ns) == 0 {
+					continue
+				}
+				n := ns[r.Intn(len(ns))]
+				if err := st.PurgeMessages(n); err != nil {
+					c.Inconclusive("PurgeMessages failed between scans: " + err.Error())
+					return
+				}
+				delete(model, n)
+			}
+		}
+	}
+}
+
+func tail[T any](l []T, n int) []T {
+	if len(l) > n {
+		return l[len(l)-n:]
+	}
+	return l
+}
+
+// ---------------------------------------------------------------------------------------------
+// inject: client operations at chosen steps of the scan, on the scanner's own goroutine.
+
+type injOp struct {
+	Kind string  `json:"kind"` // purge | remove | deliver
+	Box  string  `json:"box"`
+	Idx  int     `json:"idx,omitempty"` // remove: index into the mailbox's pre-population
+	Msg  msgSpec `json:"msg,omitempty"`
+}
+
+type trigger struct {
+	Site string  `json:"site"` // visit | level
+	At   int     `json:"at"`   // ordinal of the visit / of the level point, from 1
+	Ops  []injOp `json:"ops"`
+}
+
+// tracked is the model's record of one message in the inject and race streams.
+type tracked struct {
+	*pmsg
+	addCall, addRet int64 // logical clock; 0 for the pre-population
+	duringScan      bool
+	removedOK       bool // a client RemoveMessage returned nil
+	removeUnclear   bool // a client RemoveMessage returned an error other than not-exist
+	purgedAfter     bool // a purge of its mailbox was called after the add had returned
+	purgeMaybe      bool // a purge of its mailbox overlapped the add
+}
+
+func runInject(c *fw.Ctx, idx int, r *fw.Rand) {
+	backend := backends[idx%2]
+	useLevel := backend == "file" && (idx/2)%2 == 0
+	spec := genPop(r, 2, 16, 8, useLevel)
+	st, _, err := newStore(c, backend)
+	if err != nil {
+		panic(err)
+	}
+	now := time.Now()
+	model0, err := instantiate(st, &spec, now)
+	if err != nil {
+		c.Inconclusive("population could not be stored: " + err.Error())
+		return
+	}
+	boxes := map[string][]*tracked{}
+	allNames := map[string]bool{}
+	for _, b := range spec.Boxes {
+		allNames[b.Name] = true
+	}
+	for n, l := range model0 {
+		for _, m := range l {
+			boxes[n] = append(boxes[n], &tracked{pmsg: m})
+		}
+	}
+	// Plan.
+	nb := len(spec.Boxes)
+	maxAt := nb
+	site := "visit"
+	if useLevel {
+		site = "level"
+		maxAt = 3 * nb
+	}
+	var plan []trigger
+	ntr := r.Range(1, 4)
+	for t := 0; t < ntr; t++ {
+		tr := trigger{Site: site, At: r.Range(1, maxAt)}
+		if r.Chance(1, 3) {
+			tr.At = 1
+		}
+		nops := r.Range(1, 4)
+		for k := 0; k < nops; k++ {
+			b := spec.Boxes[r.Intn(nb)]
+			switch r.Weighted([]int{5, 2, 3}) {
+			case 0:
+				tr.Ops = append(tr.Ops, injOp{Kind: "purge", Box: b.Name})
+			case 1:
+				if len(b.Msgs) > 0 {
+					tr.Ops = append(tr.Ops, injOp{Kind: "remove", Box: b.Name, Idx: r.Intn(len(b.Msgs))})
+				}
+			case 2:
+				name := b.Name
+				if r.Bool() {
+					name = "i" + r.Letters(r.Range(2, 6), "abcdefghijklmnopqrstuvwxyz")
+				}
+				ms := genMsg(r, spec.Period)
+				ms.Seen = false
+				tr.Ops = append(tr.Ops, injOp{Kind: "deliver", Box: name, Msg: ms})
+			}
+		}
+		plan = append(plan, tr)
+	}
+	detail := map[string]any{"backend": backend, "period": spec.Period.String(), "population": spec, "plan": plan}
+
+	var opErrs []string
+	executed := 0
+	levelOps := 0
+	pre := map[string][]*pmsg{}
+	for n, l := range model0 {
+		pre[n] = append([]*pmsg{}, l...)
+	}
+	exec := func(ops []injOp, level bool) {
+		for _, op := range ops {
+			executed++
+			if level {
+				levelOps++
+			}
+			switch op.Kind {
+			case "purge":
+				if err := st.PurgeMessages(op.Box); err != nil {
+					opErrs = append(opErrs, "purge "+op.Box+": "+err.Error())
+					for _, m := range boxes[op.Box] {
+						m.purgeMaybe = true
+					}
+					continue
+				}
+				for _, m := range boxes[op.Box] {
+					m.purgedAfter = true
+				}
+			case "remove":
+				if op.Idx >= len(pre[op.Box]) {
+					continue
+				}
+				target := pre[op.Box][op.Idx]
+				err := st.RemoveMessage(op.Box, target.ID)
+				for _, m := range boxes[op.Box] {
+					if m.pmsg == target {
+						switch {
+						case err == nil:
+							m.removedOK = true
+						case !errors.Is(err, storage.ErrNotExist):
+							m.removeUnclear = true
+							opErrs = append(opErrs, "remove "+op.Box+"/"+target.ID+": "+err.Error())
+						}
+					}
+				}
+			case "deliver":
+				pm, err := addOne(st, op.Box, op.Msg, now, spec.Period)
+				if err != nil {
+					opErrs = append(opErrs, "deliver "+op.Box+": "+err.Error())
+					continue
+				}
+				allNames[op.Box] = true
+				boxes[op.Box] = append(boxes[op.Box], &tracked{pmsg: pm, duringScan: true})
+			}
+		}
+	}
+
+	w := &wrapStore{Store: st}
+	if !useLevel {
+		w.onVisit = func(k int, _ []storage.Message) {
+			for _, tr := range plan {
+				if tr.At == k {
+					exec(tr.Ops, false)
+				}
+			}
+		}
+	} else {
+		points := 0
+		verifhook.Set(func(site string, args ...string) {
+			if site != "file.visit.level" {
+				return
+			}
+			points++
+			for _, tr := range plan {
+				if tr.At == points {
+					exec(tr.Ops, true)
+				}
+			}
+		})
+	}
+	rs := storage.NewRetentionScanner(config.Storage{RetentionPeriod: spec.Period, RetentionSleep: 0}, w)
+	serr, ok := scanOnce(c, rs, context.Background(), "inject")
+	verifhook.Set(nil)
+	w.mu.Lock()
+	w.onVisit = nil
+	w.mu.Unlock()
+	if !ok {
+		return
+	}
+	c.Count("inject_ops_during_scan", int64(executed))
+	c.Count("inject_level_hook_ops", int64(levelOps))
+	detail["op_errors"] = opErrs
+	if serr != nil {
+		c.Violation("C12:scan-error:inject", fmt.Sprintf("DoScan on the %s store returned %v while a client emptied mailboxes during the scan", backend, serr), detail)
+		return
+	}
+	for _, e := range opErrs {
+		_ = e
+		c.Count("inject_client_op_errors", 1)
+	}
+	want := map[string][]*pmsg{}
+	info := map[*pmsg]*tracked{}
+	for n, l := range boxes {
+		for _, m := range l {
+			want[n] = append(want[n], m.pmsg)
+			info[m.pmsg] = m
+		}
+	}
+	var sorted []string
+	for n := range allNames {
+		sorted = append(sorted, n)
+	}
+	sort.Strings(sorted)
+	expect := func(final bool) func(*pmsg) int {
+		return func(m *pmsg) int {
+			t := info[m]
+			switch {
+			case t.removedOK || t.purgedAfter:
+				return mustGone
+			case m.Old && (!t.duringScan || final):
+				return mustGone
+			case t.removeUnclear || t.purgeMaybe:
+				return dontCare
+			case !m.Old:
+				return mustStay
+			}
+			return dontCare
+		}
+	}
+	snap, err := sut.Snapshot(st, sorted, true)
+	if err != nil {
+		c.Violation("C12:store-unreadable-after-scan:inject", fmt.Sprintf("%s store after DoScan: %v", backend, err), detail)
+		return
+	}
+	if vs := judge(snap, want, expect(false), false); len(vs) > 0 {
+		report(c, "inject", vs, detail)
+		return
+	}
+	// A second, undisturbed scan: now every expired message must be gone.
+	serr, ok = scanOnce(c, rs, context.Background(), "inject")
+	if !ok {
+		return
+	}
+	if serr != nil {
+		c.Violation("C12:scan-error:inject", fmt.Sprintf("second DoScan on the %s store returned %v", backend, serr), detail)
+		return
+	}
+	snap, err = sut.Snapshot(st, sorted, true)
+	if err != nil {
+		c.Violation("C12:store-unreadable-after-scan:inject", fmt.Sprintf("%s store after DoScan: %v", backend, err), detail)
+		return
+	}
+	if vs := judge(snap, want, expect(true), false); len(vs) > 0 {
+		report(c, "inject-final", vs, detail)
+		return
+	}
+	gone, stay := 0, 0
+	for _, t := range info {
+		switch expect(true)(t.pmsg) {
+		case mustGone:
+			if t.Old {
+				gone++
+			}
+		case mustStay:
+			stay++
+		}
+	}
+	c.Count("expired_removed", int64(gone))
+	c.Count("unexpired_kept", int64(stay))
+	if executed > 0 && gone > 0 && stay > 0 {
+		kinds := map[string]bool{}
+		for _, tr := range plan {
+			for _, op := range tr.Ops {
+				kinds[op.Kind] = true
+			}
+		}
+		var ks []string
+		for k := range kinds {
+			ks = append(ks, k)
+		}
+		sort.Strings(ks)
+		c.NonTrivial(fmt.Sprintf("inject|%s|%s|%s|boxes=%s|ops=%v|first=%d", backend, site, spec.PClass, bucket(nb), ks, plan[0].At))
+	}
+	c.Sample(map[string]any{"stream": "inject", "backend": backend, "site": site, "plan": plan, "executed_ops": executed})
+}
+
+// ---------------------------------------------------------------------------------------------
+// race: real goroutines.
+
+type clientOp struct {
+	Kind   string  `json:"kind"`
+	Box    string  `json:"box"`
+	Msg    msgSpec `json:"msg,omitempty"`
+	target *tracked
+	Yields int `json:"yields"`
+	// outcome
+	ID    string `json:"id,omitempty"`
+	Call  int64  `json:"call"`
+	Ret   int64  `json:"ret"`
+	Err   string `json:"err,omitempty"`
+	nx    bool   // error was ErrNotExist
+	added *tracked
+}
+
+func runRace(c *fw.Ctx, idx int, r *fw.Rand) {
+	backend := backends[idx%2]
+	spec := genPop(r, 2, 14, 8, backend == "file" && r.Chance(1, 3))
+	st, _, err := newStore(c, backend)
+	if err != nil {
+		panic(err)
+	}
+	now := time.Now()
+	model0, err := instantiate(st, &spec, now)
+	if err != nil {
+		c.Inconclusive("population could not be stored: " + err.Error())
+		return
+	}
+	boxes := map[string][]*tracked{}
+	allNames := map[string]bool{}
+	var prepop []*tracked
+	for _, b := range spec.Boxes {
+		allNames[b.Name] = true
+	}
+	for _, n := range names(model0) {
+		for _, m := range model0[n] {
+			t := &tracked{pmsg: m}
+			boxes[n] = append(boxes[n], t)
+			prepop = append(prepop, t)
+		}
+	}
+	sleep := []time.Duration{0, 0, 20 * time.Microsecond, 200 * time.Microsecond, time.Millisecond}[r.Intn(5)]
+	nscans := r.Range(1, 3)
+	nclients := r.Range(1, 4)
+	plans := make([][]*clientOp, nclients)
+	for j := range plans {
+		nops := r.Range(4, 30)
+		for k := 0; k < nops; k++ {
+			op := &clientOp{Yields: r.Intn(4)}
+			b := spec.Boxes[r.Intn(len(spec.Boxes))]
+			switch r.Weighted([]int{5, 3, 3}) {
+			case 0:
+				op.Kind = "deliver"
+				op.Box = b.Name
+				if r.Chance(1, 3) {
+					op.Box = "r" + strconv.Itoa(j) + r.Letters(r.Range(1, 4), "abcdefghijklmnopqrstuvwxyz")
+				}
+				op.Msg = genMsg(r, spec.Period)
+				op.Msg.Seen = false
+			case 1:
+				op.Kind = "remove"
+				if len(prepop) == 0 {
+					op.Kind = "purge"
+					op.Box = b.Name
+					break
+				}
+				op.target = prepop[r.Intn(len(prepop))]
+				op.Box = op.target.Mailbox
+			case 2:
+				op.Kind = "purge"
+				op.Box = b.Name
+			}
+			plans[j] = append(plans[j], op)
+		}
+	}
+	detail := map[string]any{"backend": backend, "period": spec.Period.String(), "population": spec,
+		"clients": nclients, "scans": nscans, "retention_sleep": sleep.String()}
+
+	var clock atomic.Int64
+	tick := func() int64 { return clock.Add(1) }
+	start := make(chan struct{})
+	var wg sync.WaitGroup
+	w := &wrapStore{Store: st}
+	rs := storage.NewRetentionScanner(config.Storage{RetentionPeriod: spec.Period, RetentionSleep: sleep}, w)
+	type scanRec struct {
+		Call, Ret int64
+		Err       string
+	}
+	scans := make([]scanRec, nscans)
+	wg.Add(1)
+	go func() {
+		defer wg.Done()
+		<-start
+		for s := 0; s < nscans; s++ {
+			scans[s].Call = tick()
+			if err := rs.DoScan(context.Background()); err != nil {
+				scans[s].Err = err.Error()
+			}
+			scans[s].Ret = tick()
+		}
+	}()
+	for j := 0; j < nclients; j++ {
+		ops := plans[j]
+		wg.Add(1)
+		go func() {
+			defer wg.Done()
+			<-start
+			for _, op := range ops {
+				for y := 0; y < op.Yields; y++ {
+					runtime.Gosched()
+				}
+				switch op.Kind {
+				case "deliver":
+					op.Call = tick()
+					pm, err := addOne(st, op.Box, op.Msg, now, spec.Period)
+					op.Ret = tick()
+					if err != nil {
+						op.Err = err.Error()
+						continue
+					}
+					op.ID = pm.ID
+					op.added = &tracked{pmsg: pm, addCall: op.Call, addRet: op.Ret}
+				case "remove":
+					op.ID = op.target.ID
+					op.Call = tick()
+					err := st.RemoveMessage(op.Box, op.target.ID)
+					op.Ret = tick()
+					if err != nil {
+						op.Err = err.Error()
+						op.nx = errors.Is(err, storage.ErrNotExist)
+					}
+				case "purge":
+					op.Call = tick()
+					err := st.PurgeMessages(op.Box)
+					op.Ret = tick()
+					if err != nil {
+						op.Err = err.Error()
+					}
+				}
+			}
+		}()
+	}
+	ok, dump := c.Within(120*time.Second, func() {
+		close(start)
+		wg.Wait()
+	})
+	if !ok {
+		c.Hang("race-finish", "scan and clients did not finish", dump)
+		return
+	}
+	c.Count("race_cases:"+backend, 1)
+
+	// Merge the logs into the model.
+	addFailed := 0
+	overlap, purgeOverlap := 0, 0
+	var log []*clientOp
+	for _, ops := range plans {
+		for _, op := range ops {
+			log = append(log, op)
+			if op.added != nil {
+				boxes[op.Box] = append(boxes[op.Box], op.added)
+				allNames[op.Box] = true
+			}
+			if op.Kind == "deliver" && op.Err != "" {
+				addFailed++
+			}
+			for _, s := range scans {
+				if op.Call < s.Ret && op.Ret > s.Call {
+					overlap++
+					if op.Kind == "purge" {
+						purgeOverlap++
+					}
+					break
+				}
+			}
+		}
+	}
+	sort.Slice(log, func(i, j int) bool { return log[i].Call < log[j].Call })
+	detail["client_log"] = tail(log, 80)
+	detail["scan_log"] = scans
+	c.Count("race_client_ops", int64(len(log)))
+	c.Count("race_client_ops_overlapping_scan", int64(overlap))
+	c.Count("race_purges_overlapping_scan", int64(purgeOverlap))
+	c.Count("race_add_failed", int64(addFailed))
+	for _, op := range log {
+		switch op.Kind {
+		case "remove":
+			switch {
+			case op.Err == "":
+				op.target.removedOK = true
+			case !op.nx:
+				op.target.removeUnclear = true
+			}
+		case "purge":
+			for _, t := range boxes[op.Box] {
+				switch {
+				case op.Err == "" && op.Call > t.addRet:
+					t.purgedAfter = true
+				case op.Ret > t.addCall:
+					t.purgeMaybe = true
+				}
+			}
+		}
+	}
+	for _, s := range scans {
+		if s.Err != "" {
+			c.Violation("C12:scan-error:race", fmt.Sprintf("DoScan on the %s store returned %q while clients delivered, removed and purged", backend, s.Err), detail)
+			return
+		}
+	}
+	lastScanCall := scans[len(scans)-1].Call
+	want := map[string][]*pmsg{}
+	info := map[*pmsg]*tracked{}
+	for n, l := range boxes {
+		// The arrival order of concurrent deliveries is not known; order verdicts are dropped below.
+		for _, t := range l {
+			want[n] = append(want[n], t.pmsg)
+			info[t.pmsg] = t
+		}
+	}
+	expect := func(final bool) func(*pmsg) int {
+		return func(m *pmsg) int {
+			t := info[m]
+			switch {
+			case t.removedOK || t.purgedAfter:
+				return mustGone
+			case m.Old && (final || t.addRet < lastScanCall):
+				return mustGone
+			case t.removeUnclear || t.purgeMaybe:
+				return dontCare
+			case !m.Old:
+				return mustStay
+			}
+			return dontCare
+		}
+	}
+	var sorted []string
+	for n := range allNames {
+		sorted = append(sorted, n)
+	}
+	sort.Strings(sorted)
+	snap, err := sut.Snapshot(st, sorted, true)
+	if err != nil {
+		c.Violation("C12:store-unreadable-after-scan:race", fmt.Sprintf("%s store after the race: %v", backend, err), detail)
+		return
+	}
+	if vs := dropOrder(judge(snap, want, expect(false), addFailed > 0)); len(vs) > 0 {
+		report(c, "race", vs, detail)
+		return
+	}
+	// One quiet scan: afterwards the store is exactly the surviving unexpired messages.
+	serr, ok := scanOnce(c, rs, context.Background(), "race")
+	if !ok {
+		return
+	}
+	if serr != nil {
+		c.Violation("C12:scan-error:race-final", fmt.Sprintf("quiet DoScan on the %s store after the race returned %v", backend, serr), detail)
+		return
+	}
+	snap, err = sut.Snapshot(st, sorted, true)
+	if err != nil {
+		c.Violation("C12:store-unreadable-after-scan:race", fmt.Sprintf("%s store after the final scan: %v", backend, err), detail)
+		return
+	}
+	if vs := dropOrder(judge(snap, want, expect(true), addFailed > 0)); len(vs) > 0 {
+		report(c, "race-final", vs, detail)
+		return
+	}
+	gone, stay := 0, 0
+	for _, t := range info {
+		switch expect(true)(t.pmsg) {
+		case mustGone:
+			if t.Old {
+				gone++
+			}
+		case mustStay:
+			stay++
+		}
+	}
+	c.Count("expired_removed", int64(gone))
+	c.Count("unexpired_kept", int64(stay))
+	if overlap > 0 && gone > 0 && stay > 0 {
+		c.NonTrivial(fmt.Sprintf("race|%s|%s|clients=%d|scans=%d|sleep=%s|overlap=%s|purges=%s", backend, spec.PClass,
+			nclients, nscans, sleep, bucket(overlap), bucket(purgeOverlap)))
+	}
+	c.Sample(map[string]any{"stream": "race", "backend": backend, "clients": nclients, "scans": nscans,
+		"client_ops": len(log), "ops_overlapping_scan": overlap, "expired_removed": gone, "unexpired_kept": stay})
+}
+
+// dropOrder removes order verdicts: with concurrent clients the arrival order inside a mailbox is
+// not known to the harness.
+func dropOrder(vs []verdict) []verdict {
+	var out []verdict
+	for _, v := range vs {
+		if v.key != "C12:order-changed" {
+			out = append(out, v)
+		}
+	}
+	return out
+}
+
+// ---------------------------------------------------------------------------------------------
+// cancel
+
+func runCancel(c *fw.Ctx, idx int, r *fw.Rand) {
+	backend := backends[idx%2]
+	spec := genPop(r, 2, 10, 5, false)
+	// Dry run to learn the number of visits and RemoveMessage calls of a complete scan.
+	V, R, _, ok := cancelRun(c, backend, &spec, "", 0, 0, 0)
+	if !ok {
+		return
+	}
+	// step runs one cancellation point.  DoScan chooses between ctx.Done() and its sleep timer in a
+	// select; a goroutine that loses the processor for longer than the sleep between creating the
+	// timer and evaluating the select may legitimately take the timer branch once.  A further visit
+	// is therefore reported only if it shows again with a 10x and a 100x longer sleep.
+	step := func(kind string, k int) bool {
+		var last func()
+		for _, sleep := range []time.Duration{20 * time.Millisecond, 200 * time.Millisecond, 2 * time.Second} {
+			_, _, suspect, ok := cancelRun(c, backend, &spec, kind, k, V, sleep)
+			if !ok {
+				return false
+			}
+			if suspect == nil {
+				if last != nil {
+					c.Count("cancel_extra_visit_not_reproduced", 1)
+				}
+				return true
+			}
+			last = suspect
+		}
+		last()
+		return false
+	}
+	for k := 1; k <= V; k++ {
+		if !step("visit", k) {
+			return
+		}
+	}
+	for k := 1; k <= R; k++ {
+		if !step("remove", k) {
+			return
+		}
+	}
+	c.Sample(map[string]any{"stream": "cancel", "backend": backend, "visits_of_full_scan": V, "removes_of_full_scan": R})
+}
+
+// cancelRun stores the population afresh and scans it, cancelling at the k-th step of the kind.
+func cancelRun(c *fw.Ctx, backend string, spec *popSpec, kind string, k, fullVisits int, sleep time.Duration) (visits, removes int, suspect func(), ok bool) {
+	st, _, err := newStore(c, backend)
+	if err != nil {
+		panic(err)
+	}
+	now := time.Now()
+	model, err := instantiate(st, spec, now)
+	if err != nil {
+		c.Inconclusive("population could not be stored: " + err.Error())
+		return 0, 0, nil, false
+	}
+	ctx, cancel := context.WithCancel(context.Background())
+	defer cancel()
+	w := &wrapStore{Store: st}
+	cancelledAtVisit := 0
+	switch kind {
+	case "visit":
+		w.onVisit = func(n int, _ []storage.Message) {
+			if n == k {
+				cancelledAtVisit = n
+				cancel()
+			}
+		}
+	case "remove":
+		w.onRemove = func(n int, _, _ string) {
+			if n == k {
+				w.mu.Lock()
+				cancelledAtVisit = len(w.visits)
+				w.mu.Unlock()
+				cancel()
+			}
+		}
+	}
+	rs := storage.NewRetentionScanner(config.Storage{RetentionPeriod: spec.Period, RetentionSleep: sleep}, w)
+	var serr error
+	fin, dump := c.Within(90*time.Second, func() { serr = rs.DoScan(ctx) })
+	detail := map[string]any{"backend": backend, "period": spec.Period.String(), "population": spec, "cancel_at": kind, "k": k,
+		"retention_sleep": sleep.String()}
+	if !fin {
+		c.Hang("doscan-return:cancel", fmt.Sprintf("DoScan did not return after the context was cancelled at %s %d", kind, k), dump)
+		return 0, 0, nil, false
+	}
+	vis, rem := w.snapshot()
+	if kind == "" {
+		return len(vis), len(rem), nil, true
+	}
+	c.Count("cancel_points:"+kind, 1)
+	if serr != nil {
+		c.Count("cancel_scan_returned_error", 1)
+	}
+	detail["visits"] = vis
+	detail["cancelled_in_visit"] = cancelledAtVisit
+	if cancelledAtVisit == 0 {
+		c.Inconclusive(fmt.Sprintf("cancel step %s %d was not reached", kind, k))
+		return len(vis), len(rem), nil, true
+	}
+	if len(vis) > cancelledAtVisit {
+		more := len(vis) - cancelledAtVisit
+		return len(vis), len(rem), func() {
+			c.Violation("C12:visit-after-cancel:"+kind, fmt.Sprintf("%s: context cancelled inside visit %d (at %s %d) but the scan went on to visit %d mailbox(es) more (also with RetentionSleep %s)",
+				backend, cancelledAtVisit, kind, k, more, sleep), detail)
+		}, true
+	}
+	// Nothing unexpired may be lost; mailboxes never visited are untouched.
+	visited := map[string]bool{}
+	for _, n := range vis {
+		visited[n] = true
+	}
+	var all []string
+	for _, b := range spec.Boxes {
+		all = append(all, b.Name)
+	}
+	snap, err := sut.Snapshot(st, all, true)
+	if err != nil {
+		c.Violation("C12:store-unreadable-after-scan:cancel", fmt.Sprintf("%s store after a cancelled DoScan: %v", backend, err), detail)
+		return len(vis), len(rem), nil, true
+	}
+	vs := judge(snap, model, func(m *pmsg) int {
+		if !m.Old || !visited[m.Mailbox] {
+			return mustStay
+		}
+		return dontCare
+	}, false)
+	if len(vs) > 0 {
+		report(c, "cancel", vs, detail)
+		return len(vis), len(rem), nil, true
+	}
+	total := fullVisits
+	if cancelledAtVisit < total {
+		c.Count("cancel_stopped_early", 1)
+		c.NonTrivial(fmt.Sprintf("cancel|%s|%s|k=%d|visit=%d/%d", backend, kind, k, cancelledAtVisit, total))
+	}
+	return len(vis), len(rem), nil, true
+}
+
+// ---------------------------------------------------------------------------------------------
+// start
+
+func runStart(c *fw.Ctx, idx int, r *fw.Rand) {
+	backend := backends[idx%2]
+	variant := []string{"zero", "cancel"}[(idx/2)%2]
+	spec := genPop(r, 1, 8, 6, false)
+	st, _, err := newStore(c, backend)
+	if err != nil {
+		panic(err)
+	}
+	now := time.Now()
+	model, err := instantiate(st, &spec, now)
+	if err != nil {
+		c.Inconclusive("population could not be stored: " + err.Error())
+		return
+	}
+	var all []string
+	for _, b := range spec.Boxes {
+		all = append(all, b.Name)
+	}
+	detail := map[string]any{"backend": backend, "variant": variant, "population": spec}
+	ctx, cancel := context.WithCancel(context.Background())
+	defer cancel()
+	stay := func(*pmsg) int { return mustStay }
+	switch variant {
+	case "zero":
+		// Very old messages and period 0: nothing may ever be deleted, Start returns at once.
+		rs := storage.NewRetentionScanner(config.Storage{RetentionPeriod: 0, RetentionSleep: 0}, st)
+		returned := make(chan struct{})
+		go func() {
+			rs.Start(ctx)
+			close(returned)
+		}()
+		budget := 15 * time.Second * time.Duration(c.Slow)
+		select {
+		case <-returned:
+		case <-time.After(budget):
+			buf := make([]byte, 1<<20)
+			n := runtime.Stack(buf, true)
+			c.Hang("start-period-zero", "Start with retention period 0 did not return", string(buf[:n]))
+			// Give a run loop that ignores the period its one-minute delay, to see what it deletes.
+			select {
+			case <-returned:
+			case <-time.After(75*time.Second - 15*time.Second):
+			}
+			snap, err := sut.Snapshot(st, all, true)
+			if err == nil {
+				if vs := judge(snap, model, stay, false); len(vs) > 0 {
+					for i := range vs {
+						vs[i].key = "C12:period-zero-deleted"
+					}
+					report(c, "start", vs, detail)
+				}
+			}
+			return
+		}
+		if ok, dump := c.Within(15*time.Second, rs.Join); !ok {
+			c.Hang("join-period-zero", "Join did not return after Start with period 0 returned", dump)
+			return
+		}
+		c.Count("start_zero_returned", 1)
+		snap, err := sut.Snapshot(st, all, true)
+		if err != nil {
+			c.Violation("C12:store-unreadable-after-scan:start", err.Error(), detail)
+			return
+		}
+		if vs := judge(snap, model, stay, false); len(vs) > 0 {
+			for i := range vs {
+				vs[i].key = "C12:period-zero-deleted"
+			}
+			report(c, "start", vs, detail)
+			return
+		}
+		c.NonTrivial(fmt.Sprintf("start|zero|%s|boxes=%s", backend, bucket(len(spec.Boxes))))
+	case "cancel":
+		rs := storage.NewRetentionScanner(config.Storage{RetentionPeriod: spec.Period, RetentionSleep: 0}, st)
+		returned := make(chan struct{})
+		go func() {
+			rs.Start(ctx)
+			close(returned)
+		}()
+		yields := r.Intn(200)
+		for y := 0; y < yields; y++ {
+			runtime.Gosched()
+		}
+		cancel()
+		ok, dump := c.Within(10*time.Second, func() {
+			<-returned
+			rs.Join()
+		})
+		if !ok {
+			c.Hang("start-cancel", "Start/Join did not return after the context was cancelled before the first scan", dump)
+			return
+		}
+		c.Count("start_cancel_returned", 1)
+		snap, err := sut.Snapshot(st, all, true)
+		if err != nil {
+			c.Violation("C12:store-unreadable-after-scan:start", err.Error(), detail)
+			return
+		}
+		vs := judge(snap, model, func(m *pmsg) int {
+			if m.Old {
+				return dontCare
+			}
+			return mustStay
+		}, false)
+		if len(vs) > 0 {
+			report(c, "start-cancel", vs, detail)
+			return
+		}
+		c.NonTrivial(fmt.Sprintf("start|cancel|%s|yields=%s", backend, bucket(yields)))
+	}
+	c.Sample(map[string]any{"stream": "start", "backend": backend, "variant": variant})
+}
+
+// ---------------------------------------------------------------------------------------------
+// loop (thorough): the run loop performs its first scan one minute after Start.
+
+func runLoop(c *fw.Ctx, idx int, r *fw.Rand) {
+	backend := backends[idx%2]
+	spec := genPop(r, 3, 12, 8, false)
+	st, _, err := newStore(c, backend)
+	if err != nil {
+		panic(err)
+	}
+	now := time.Now()
+	model, err := instantiate(st, &spec, now)
+	if err != nil {
+		c.Inconclusive("population could not be stored: " + err.Error())
+		return
+	}
+	old, _ := spec.counts()
+	if old == 0 {
+		pm, err := addOne(st, spec.Boxes[0].Name, msgSpec{Old: true, Delta: minDelta, Subject: "old"}, now, spec.Period)
+		if err != nil {
+			c.Inconclusive(err.Error())
+			return
+		}
+		model[pm.Mailbox] = append(model[pm.Mailbox], pm)
+	}
+	var all []string
+	for _, b := range spec.Boxes {
+		all = append(all, b.Name)
+	}
+	detail := map[string]any{"backend": backend, "population": spec}
+	ctx, cancel := context.WithCancel(context.Background())
+	defer cancel()
+	w := &wrapStore{Store: st}
+	rs := storage.NewRetentionScanner(config.Storage{RetentionPeriod: spec.Period, RetentionSleep: time.Millisecond}, w)
+	returned := make(chan struct{})
+	go func() {
+		rs.Start(ctx)
+		close(returned)
+	}()
+	// Wait (watchdog only) until one complete scan has visited the store.
+	deadline := time.Now().Add(150 * time.Second * time.Duration(c.Slow))
+	seen := false
+	for time.Now().Before(deadline) {
+		vis, _ := w.snapshot()
+		if len(vis) > 0 {
+			seen = true
+			break
+		}
+		time.Sleep(200 * time.Millisecond)
+	}
+	if !seen {
+		cancel()
+		c.Inconclusive("the run loop did not start a scan within the watchdog")
+		return
+	}
+	time.Sleep(2 * time.Second) // lets the scan in progress finish; the verdict below does not depend on it
+	cancel()
+	ok, dump := c.Within(10*time.Second, func() {
+		<-returned
+		rs.Join()
+	})
+	if !ok {
+		c.Hang("loop-cancel", "Start/Join did not return after the context was cancelled between scans", dump)
+		return
+	}
+	snap, err := sut.Snapshot(st, all, true)
+	if err != nil {
+		c.Violation("C12:store-unreadable-after-scan:loop", err.Error(), detail)
+		return
+	}
+	vis, _ := w.snapshot()
+	visitedNames := map[string]bool{}
+	for _, n := range vis {
+		visitedNames[n] = true
+	}
+	complete := true
+	for n := range model {
+		if !visitedNames[n] {
+			complete = false
+		}
+	}
+	vs := judge(snap, model, func(m *pmsg) int {
+		if !m.Old {
+			return mustStay
+		}
+		if complete {
+			return mustGone
+		}
+		return dontCare
+	}, false)
+	if len(vs) > 0 {
+		report(c, "loop", vs, detail)
+		return
+	}
+	if complete {
+		c.Count("loop_scans_observed", 1)
+		c.NonTrivial("loop|" + backend)
+	}
+}
